@@ -107,7 +107,7 @@ def slices(tier, rng):
         out.append(g('graph-k3-ps4', 3, 4, 1, [0, 1, 2, 5], [0]))
         out.append(g('graph-k2-ps8', 2, 8, 2, [6, 1, 2, 5], [0]))
     from . import c11
-    out.append(Slice('scope-ps4', 't_order_scope', 11, lambda a: c11.assume(a, 4, 2) + [a[1] == 0, a[5] == 0] +
+    out.append(Slice('scope-ps4', 't_order_scope', 11, lambda a: c11.assume(a, 4, 2) + [a[1] == 0, a[5] == 0, z3.ULE(a[3], 1)] +
                      ([z3.Or(a[7 + i] == 0, a[7 + i] == 1, a[7 + i] == 2, a[7 + i] == 3, a[7 + i] == 4, a[7 + i] == 8) for i in range(2)] if tier == 'quick' else []),
                      opts={'map_order': order_hook_global, 'must_reach': ['ok/ok']}, ctx={'t': 'scope'}))
     # the same modules added in every order (no hash-order choice involved: the add order itself is the varied dimension)
